@@ -1296,4 +1296,72 @@ theorem parseClauses_seenOf (q : List (String × QV)) (md : List (Nat × Nat)) :
       rw [addQueryOk_eq q md h1 h2] at hnok
       simpa using hnok
 
+/-! ### which add requests the spec calls malformed, against what the model refuses (for `add_model_holds`) -/
+
+theorem lateWord_isSome (v : QV) (d d' : String) : (lateWord v d).isSome = (lateWord v d').isSome := by
+  cases v with
+  | valid x => cases x <;> rfl
+  | _ => rfl
+
+theorem addParams_fields {q : List (String × QV)} {md : List (Nat × Nat)} {p : AddParams} (h : addParams q md = some p) :
+    wordParam (getq q "format") = some p.format ∧ boolParam (getq q "nocopy") false = some p.nocopy ∧
+    boolParam (getq q "stream-channels") true = some p.stream := by
+  unfold addParams at h
+  split at h
+  · rename_i o layout format loc recursive hidden wrap shard progress cidv ho hl hf h1 h2 h3 h4 h5 h6 hcv
+    split at h
+    · rename_i raw stream nocopy h7 h8 h9
+      simp only [Option.some.injEq] at h
+      subst h
+      exact ⟨hf, h9, h8⟩
+    · simp at h
+  · simp at h
+
+theorem addMalformed_of_refused (r : AddReq) (hp : addParams r.query r.md = none) : addMalformed r = true := by
+  by_cases hg : hasGarbled r.query = true
+  · simp [addMalformed, hg]
+  · have hg' : hasGarbled r.query = false := by simpa using hg
+    have h := addParams_isSome r.query r.md
+    rw [hp] at h
+    have hc := carried_isSome r.md hg'
+    by_cases hh : (lateWord (getq r.query "hash") "").isSome = true
+    · rw [v0OtherHash_eq hh] at h
+      unfold addMalformed
+      rw [addOptionsOk_eq]
+      cases h1 : (fromQuery r.query r.md).isSome <;> cases h2 : addParseOk r.query <;>
+        cases h3 : versionContradiction r.query <;> simp_all
+    · unfold addMalformed; rw [addOptionsOk_eq]; simp [hh]
+
+theorem addMalformed_of_accepted (r : AddReq) (p : AddParams) (hm : r.mp = .ok) (hg : hasGarbled r.query = false)
+    (hp : addParams r.query r.md = some p) (hl : lateFailure r p = false) : addMalformed r = false := by
+  have h := addParams_isSome r.query r.md
+  rw [hp] at h
+  have hc := carried_isSome r.md hg
+  obtain ⟨hf, hn, _⟩ := addParams_fields hp
+  simp only [lateFailure, Bool.or_eq_false_iff] at hl
+  obtain ⟨⟨⟨⟨⟨_, hlc⟩, hlh⟩, hcar⟩, hnc⟩, _⟩ := hl
+  have hlc' : (lateWord (getq r.query "chunker") "").isSome = true := by
+    rw [lateWord_isSome _ "" "size-262144"]; cases hx : lateWord (getq r.query "chunker") "size-262144" <;> simp [hx] at hlc ⊢
+  have hlh' : (lateWord (getq r.query "hash") "").isSome = true := by
+    rw [lateWord_isSome _ "" "sha2-256"]; cases hx : lateWord (getq r.query "hash") "sha2-256" <;> simp [hx] at hlh ⊢
+  rw [v0OtherHash_eq hlh'] at h
+  have hbm : bodyMismatch r.query = false := by
+    unfold bodyMismatch
+    cases hfq : getq r.query "format" == .valid (.str "car") with
+    | true => rw [eq_of_beq hfq] at hf; simp_all [wordParam]
+    | false =>
+      cases hnq : getq r.query "nocopy" == .valid (.bool true) with
+      | true => rw [eq_of_beq hnq] at hn; simp_all [boolParam]
+      | false => rfl
+  unfold addMalformed
+  rw [addOptionsOk_eq, hlc', hlh', hbm, hg, hm]
+  have h' := h.symm
+  simp only [Option.isSome_some, Bool.and_eq_true] at h'
+  obtain ⟨⟨h1, h2⟩, h3⟩ := h'
+  rw [h1] at hc
+  cases hcc : carried r.query r.md with
+  | none => simp [hcc] at hc
+  | some w => simp [h2] ; simpa using h3
+
+
 end CV.C11
